@@ -84,7 +84,7 @@ def gen_op(rng, small=False):
 
 def gen_case(rng, index, tier):
     if rng.random() < 0.4:
-        op = gen_op(rng, small=rng.random() < 0.8)
+        op = gen_op(rng, small=rng.random() < (0.5 if tier == 'thorough' else 0.8))
         while op.get('f') == 'f_fails':
             op = gen_op(rng, small=True)
         return dict(mode='enum', op=op, eseed=rng.randrange(1 << 30))
@@ -108,7 +108,7 @@ def gen_case(rng, index, tier):
         else:
             v['args'][-1] = v['args'][-1] + 1
         pool.append(v)
-    nepochs = rng.choice([1, 2, 2, 3, 3, 4])
+    nepochs = rng.choice([1, 2, 2, 3, 3, 4] + ([5, 6] if tier == 'thorough' else []))
     epochs = []
     slot = 1
     faults = []
